@@ -59,7 +59,7 @@ func runConn(t *testing.T, streams [][]byte, plan Plan, buf []byte, bufMax int) 
 			if i >= len(streams) {
 				return nil, errScriptEnd
 			}
-			cr := &chunkReader{data: streams[i], plan: plan}
+			cr := &chunkReader{Data: streams[i], Plan: plan}
 			res.readers = append(res.readers, cr)
 			return &http.Response{StatusCode: 200, Header: http.Header{"Content-Type": {"text/event-stream"}}, Body: bodyCloser{cr}, Request: r}, nil
 		})}
